@@ -33,6 +33,8 @@ def c01(ctx):
     sem.trace_batches(ctx, "mixed", "MachineTrace_C01.cfg", n, b)
     sem.trace_batches(ctx, "multi", "MachineTrace_C01.cfg", n, b)
     sem.scale_sem(ctx, "multi", "MachineTrace_C01.cfg", scale(ctx, 1500, 15000))
+    if ctx.tier == "thorough":
+        sem.family_replay(ctx, "prog", "MachineTrace_C01.cfg")     # every two-statement program of the design-level family on the real interpreter
     sem.repo_corpus(ctx, "MachineTrace_C01.cfg")
     return ctx.finish("model_checking", sem.NONTRIV_RULE)
 
@@ -55,6 +57,7 @@ def c03(ctx):
     n, b = scale(ctx, (2500, 6), (6000, 24))
     sem.trace_batches(ctx, "exact", "MachineTrace_C03.cfg", n, b)
     sem.scale_sem(ctx, "exact", "MachineTrace_C03.cfg", scale(ctx, 1500, 15000))
+    sem.family_replay(ctx, "src", "MachineTrace_C03.cfg")
     sem.repo_corpus(ctx, "MachineTrace_C03.cfg")
     return ctx.finish("model_checking", sem.NONTRIV_RULE)
 
@@ -66,6 +69,7 @@ def c04(ctx):
     n, b = scale(ctx, (2500, 6), (6000, 24))
     sem.trace_batches(ctx, "src", "MachineTrace_C04.cfg", n, b)
     sem.scale_sem(ctx, "src", "MachineTrace_C04.cfg", scale(ctx, 1500, 15000))
+    sem.family_replay(ctx, "src", "MachineTrace_C04.cfg")
     return ctx.finish("model_checking", sem.NONTRIV_RULE)
 
 
@@ -76,6 +80,7 @@ def c05(ctx):
     n, b = scale(ctx, (2500, 6), (6000, 24))
     sem.trace_batches(ctx, "dst", "MachineTrace_C05.cfg", n, b)
     sem.scale_sem(ctx, "dst", "MachineTrace_C05.cfg", scale(ctx, 1500, 15000))
+    sem.family_replay(ctx, "dst", "MachineTrace_C05.cfg")
     return ctx.finish("model_checking", sem.NONTRIV_RULE)
 
 
